@@ -144,11 +144,22 @@ func (vc *VC) call(in ssa.Instruction, cc *ssa.CallCommon, h *Heap) []string {
 			ev := vc.newEval(vc.fn, *h, vc.heap0, nil)
 			blk := in.Block()
 			ev.resolve = func(n string) (EVal, bool) { return vc.resolveLocalAtBlock(ev, n, blk) }
+			// $arg0, $arg1, ... denote the actual arguments of this call (receiver first)
+			for ai, a := range cc.Args {
+				ev.bound[fmt.Sprintf("$arg%d", ai)] = EVal{T: a.Type(), Terms: vc.val(a)}
+			}
 			for i, c := range cls {
 				// a call site where a local named by the assertion does not exist yet (an earlier
 				// call of the same callee) is not a target of that assertion
-				if _, err := ev.boolExpr(c.E, true); err != nil && strings.Contains(err.Error(), "unknown name") {
+				if _, err := ev.boolExpr(c.E, true); err != nil {
 					ev.skolems, ev.hyps = nil, nil
+					if strings.Contains(err.Error(), "unknown name") {
+						continue
+					}
+					// the call no longer has the shape the assertion talks about
+					vc.addObl(&Obligation{Name: fmt.Sprintf("%s/at-call@%s#%d@%s", root.key, short, i+1, vc.pos(in.Pos())), Kind: "at-call",
+						Goal: "false", Pos: vc.pos(in.Pos()), Src: c.Src + "  -- not evaluable at this call: " + err.Error()})
+					root.atCallSeen[short]++
 					continue
 				}
 				vc.goalClause(ev, c, fmt.Sprintf("%s/at-call@%s#%d@%s", root.key, short, i+1, vc.pos(in.Pos())), "at-call", vc.curR, vc.pos(in.Pos()))
@@ -271,7 +282,7 @@ func (vc *VC) call(in ssa.Instruction, cc *ssa.CallCommon, h *Heap) []string {
 		callee = cc.StaticCallee()
 	}
 	// contract on the callee?
-	if callee != nil && closure == nil {
+	if callee != nil {
 		key := funcKey(callee)
 		if callee.Origin() != nil {
 			key = funcKey(callee.Origin())
